@@ -203,6 +203,9 @@ func (m *Message) pack() ([]byte, error) {
 			continue
 		}
 		m.bitmap().Set(id)
+		if !m.bitmap().IsSet(id) {
+			return nil, fmt.Errorf("failed to pack field %d: bitmap cannot represent it", id)
+		}
 	}
 
 	// pack fields
